@@ -67,6 +67,9 @@ EmptyTree == [p \in Paths |-> Absent]
 CanCreate(t, p) == ~Present(t, p) /\ ParentOK(t, p)
 CanWrite(t, p)  == IsFilePath(p) /\ IsFile(t, p)
 CanRemove(t, p) == Present(t, p)
+\* fscommands.write() on a path opens it "wb": it also creates a missing file
+\* (ChangeContents.do reads first the first time, hence CanWrite there)
+CanRewrite(t, p) == IsFilePath(p) /\ ~IsDir(t, p) /\ ParentOK(t, p)
 
 \* shutil.move(src, dst): defined here only for dst absent (no clobbering,
 \* no "move into existing directory" re-targeting), same kind, dst not
@@ -147,6 +150,10 @@ LeafApply(t, l) ==
     [] l.k = "MV" -> DoMove(t, l.p, l.q)
     [] l.k = "RM" -> DoRemove(t, l.p)
 
+\* performing a leaf again (redo): ChangeContents has its old contents
+\* already, so it does not read the file first
+RedoEnabled(t, l) == IF l.k = "W" THEN CanRewrite(t, l.p) ELSE LeafEnabled(t, l)
+
 (***************************************************************************)
 (* Inverses as rope implements them (change.py: undo methods).  `old` is   *)
 (* the content ChangeContents captured when it was first performed.        *)
@@ -155,7 +162,7 @@ LeafApply(t, l) ==
 HasInverse(l) == l.k # "RM"
 
 InverseEnabled(t, l, old) ==
-  CASE l.k = "W"  -> CanWrite(t, l.p)
+  CASE l.k = "W"  -> CanRewrite(t, l.p)
     [] l.k = "CF" -> CanRemove(t, l.p)
     [] l.k = "CD" -> CanRemove(t, l.p)
     [] l.k = "MV" -> CanMove(t, l.q, l.p)
